@@ -20,6 +20,8 @@
 #include <arpa/inet.h>
 #include <fcntl.h>
 #include <unistd.h>
+#include <signal.h>
+#include <setjmp.h>
 
 extern int (*coap_verif_dispatch_hook)(coap_session_t *session, coap_pdu_t *pdu);
 
@@ -95,6 +97,7 @@ static void nack_handler(coap_session_t *session, const coap_pdu_t *sent, const 
 }
 
 /* ---- chunk feeder / write recorder ---- */
+static void fd_set_readable(int want);
 static const uint8_t *g_chunk; static size_t g_chunk_left;
 static size_t g_reads, g_written;
 
@@ -104,6 +107,7 @@ static ssize_t feed_read(coap_session_t *session, uint8_t *data, size_t datalen)
   g_reads++;
   if (n) memcpy(data, g_chunk, n);
   g_chunk += n; g_chunk_left -= n;
+  if (g_chunk_left == 0) fd_set_readable(0);
   return (ssize_t)n;
 }
 static ssize_t rec_write(coap_session_t *session, const uint8_t *data, size_t datalen) {
@@ -149,8 +153,35 @@ static void h_init(void) {
   memcpy(&g_dst.addr.sin, &sa, sizeof sa);
 }
 
+/* the peer end of the session's real socket.  coap_ws_close() drains "the socket": select() on the REAL fd,
+ * then coap_ws_read() into a 100-byte buffer; that path must be exercised too.  The real fd is therefore kept
+ * readable (one byte written by the peer, never read by libcoap: l_read is the chunk feeder) exactly while the
+ * current chunk still has bytes, as it would be on a real connection. */
+static int g_peer_fd = -1, g_sess_fd = -1, g_fd_readable;
+static void fd_set_readable(int want) {
+  if (g_peer_fd < 0 || g_sess_fd < 0) return;
+  if (want && !g_fd_readable) {
+    ssize_t r = write(g_peer_fd, "x", 1); (void)r;
+    for (int i = 0; i < 1000; i++) {       /* loopback delivery is asynchronous */
+      char c; if (recv(g_sess_fd, &c, 1, MSG_PEEK | MSG_DONTWAIT) == 1) break;
+      usleep(20);
+    }
+    g_fd_readable = 1;
+  } else if (!want && g_fd_readable) {
+    char c; ssize_t r = recv(g_sess_fd, &c, 1, MSG_DONTWAIT); (void)r;
+    g_fd_readable = 0;
+  }
+}
+static void peer_accept(void) {
+  for (int i = 0; i < 200 && g_peer_fd < 0; i++) {
+    g_peer_fd = accept(g_listen_fd, NULL, NULL);
+    if (g_peer_fd < 0) usleep(100);
+  }
+}
 static void drain_accept(void) {
   int fd;
+  if (g_peer_fd >= 0) { close(g_peer_fd); g_peer_fd = -1; }
+  g_sess_fd = -1; g_fd_readable = 0;
   while ((fd = accept(g_listen_fd, NULL, NULL)) >= 0) close(fd);
 }
 
@@ -184,6 +215,8 @@ static void run_stream(coap_proto_t proto, int server_side, unsigned long csm_ma
   coap_context_set_csm_max_message_size(g_ctx, csm_max ? (uint32_t)csm_max : (uint32_t)COAP_DEFAULT_MAX_PDU_RX_SIZE);
   s = coap_new_client_session(g_ctx, NULL, &g_dst, proto);
   if (!s) { printf("fail no-session"); return; }
+  peer_accept();
+  g_sess_fd = s->sock.fd;
   s->sock.lfunc[layer].l_read = feed_read;
   s->sock.lfunc[layer].l_write = rec_write;
   s->sock.flags |= COAP_SOCKET_CONNECTED;
@@ -209,6 +242,7 @@ static void run_stream(coap_proto_t proto, int server_side, unsigned long csm_ma
   for (int k = 0; k <= ncuts && !g_closed && !stuck; k++) {
     size_t a = k == 0 ? 0 : cuts[k - 1], b = k == ncuts ? len : cuts[k];
     g_chunk = stream + a; g_chunk_left = b - a;
+    fd_set_readable(g_chunk_left > 0);
     int idle = 0;
     while (g_chunk_left > 0 && !g_closed) {
       size_t before = g_chunk_left;
@@ -222,18 +256,41 @@ static void run_stream(coap_proto_t proto, int server_side, unsigned long csm_ma
   }
   if (s->state == COAP_SESSION_STATE_NONE || !(s->sock.flags & COAP_SOCKET_CONNECTED)) g_closed = 1;
 
-  printf("n=%d%s end=%s nack=", g_npdu, g_out, g_closed ? "closed" : stuck ? "stuck" : "open");
+  /* WS: events / nack reason are reported after " # " (informational: BAD_PACKET notifications and what
+   * coap_ws_close's socket draining raises are not part of the property); TCP: part of the observation */
+  printf("n=%d%s end=%s", g_npdu, g_out, g_closed ? "closed" : stuck ? "stuck" : "open");
+  if (proto == COAP_PROTO_WS) printf(" up=%d #", s->ws ? s->ws->up : 0);
+  printf(" nack=");
   if (g_nack < 0) printf("-"); else printf("%d", g_nack);
   printf(" ev=");
   if (!g_nev) printf("-");
   for (int i = 0; i < g_nev; i++) printf("%s%x", i ? "," : "", g_events[i]);
-  if (proto == COAP_PROTO_WS && s->ws) printf(" up=%d", s->ws->up);
 
   coap_session_release(s);
   drain_accept();
 }
 
+/* watchdog: a reader that loops for ever on a line is an observation ("crash watchdog"), not a hung check;
+ * after three of them the rest of the shard is answered without being run, so that a check stays bounded */
+static sigjmp_buf g_wd_jmp;
+static int g_wd_count;
+static void on_alarm(int sig) { (void)sig; siglongjmp(g_wd_jmp, 1); }
+
+static void step_inner(char *line);
 static void step(char *line) {
+  if (g_wd_count >= 3) { printf("crash watchdog-skipped"); return; }
+  signal(SIGALRM, on_alarm);
+  if (sigsetjmp(g_wd_jmp, 1)) {
+    g_wd_count++;
+    printf("crash watchdog: coap_read_session did not return within %d s", 8);
+    return;
+  }
+  alarm(8);
+  step_inner(line);
+  alarm(0);
+}
+
+static void step_inner(char *line) {
   char *w[8];
   int n = h_words(line, w, 8);
   if (n == 1 && !strcmp(w[0], "consts")) {
